@@ -115,7 +115,7 @@ class C18(Prop):
     def observe(self, case):
         import pandas as pd
         from hta.common.trace_filter import CompositeFilter
-        obs: Dict[str, Any] = {"prop": "C18", "err": "", "hasST": case["rep"] == "encoded_st", "frame": [], "after": [], "apps": []}
+        obs: Dict[str, Any] = {"prop": "C18", "err": "", "hasST": case["rep"] == "encoded_st", "frame": [], "after": [], "apps": [], "frame2": [], "apps2": []}
         with hta.CaseDir("c18") as d:
             ta = write_and_load(case, d, include_last=case["incl"])
             st_obj = ta.t.symbol_table
@@ -137,23 +137,52 @@ class C18(Prop):
                 return {"skip": True}
             rng = random.Random(case["fseed"])
             pass_st = st_obj if case["rep"] == "encoded_st" else None
+
+            def run(objs, mode, frame_df):
+                if mode == "composite":
+                    return CompositeFilter(objs)(frame_df, pass_st)
+                res = frame_df
+                for o in objs:
+                    res = o(res, pass_st)
+                return res
+
+            kept = []
             for app in self._specs(rng, obs["frame"], allow_memcpy=case["rep"] != "decoded"):
                 rec = {"fs": [{k: v for k, v in f.items()} for f in app["fs"]], "out": [], "err": "", "mode": app["mode"]}
+                objs = None
                 try:
                     for f in rec["fs"]:
                         f["ctor_st"] = case["rep"] == "encoded_ctor"
                     objs = [_mk_filter(f, st_obj) for f in rec["fs"]]
-                    if app["mode"] == "composite":
-                        res = CompositeFilter(objs)(df, pass_st)
-                    else:
-                        res = df
-                        for o in objs:
-                            res = o(res, pass_st)
-                    rec["out"] = _rows(res, st, with_all=False)
+                    rec["out"] = _rows(run(objs, app["mode"], df), st, with_all=False)
                 except Exception as ex:
                     rec["err"] = hta.exc_str(ex)
                 obs["apps"].append(rec)
+                kept.append((rec, objs, app["mode"]))
             obs["after"] = _rows(df, st, with_all=False)
+            # history: the (append-only) symbol table grows, new rows use the new symbols, and the SAME filter objects are applied again
+            new_names = ["aten::new_op", "cudaNewCall", "ncclNewKernel_AllReduce", "Memcpy DtoD (New -> New)", "void new_kernel<int>(int)", "Stream New"]
+            st_obj.add_symbols(new_names)
+            st2 = st_obj.get_sym_table()
+            extra = df.iloc[: min(len(df), len(new_names))].copy()
+            for k in range(len(extra)):
+                nm = new_names[k]
+                extra.iloc[k, extra.columns.get_loc("name")] = nm if case["rep"] == "decoded" else st_obj.get_sym_id_map()[nm]
+                if "s_name" in extra.columns:
+                    extra.iloc[k, extra.columns.get_loc("s_name")] = nm
+            extra["uid"] = extra["uid"] + 50000
+            df2 = pd.concat([df, extra], ignore_index=True)
+            obs["frame2"] = _rows(df2, st2)
+            obs["apps2"] = []
+            for rec, objs, mode in kept:
+                rec2 = {"fs": rec["fs"], "out": [], "err": "", "mode": mode}
+                if objs is None:
+                    continue
+                try:
+                    rec2["out"] = _rows(run(objs, mode, df2), st2, with_all=False)
+                except Exception as ex:
+                    rec2["err"] = hta.exc_str(ex)
+                obs["apps2"].append(rec2)
         return obs
 
     def nontrivial(self, case, obs):
